@@ -366,11 +366,13 @@ def HAS(s, sq):
     return ("isempty", setalg.canon(AND(s, ("bbof", sq))))       # polarity False == has
 
 
-def check_validators(ctx, f, L):
+def check_validators(ctx, f, L, g=None):
     ctx.rule("validator-content")
+    if g is None:
+        g = gatemod.Gate(ctx, f)
     EC = ("each", COLOR)
     # ---------------- board
-    bname = B + "::board_is_valid"
+    bname = g.validator("board")
     from .common import checkers_pins_definition
     calc = checkers_pins_definition(f)
     noin = lambda n: False if n in calc else None
@@ -410,7 +412,7 @@ def check_validators(ctx, f, L):
             compare(ctx, "board:per-colour", "board_is_valid's per-colour part (<=16 pieces, one king, <=8 pawns, no pawn on ranks 1/8)", dnf, per_colour, where)
     ctx.check(found, "board:per-colour-loop", "board_is_valid has no loop over both colours", where)
     # ---------------- castling
-    b, straight, loops = acceptance(f, L, B + "::castle_rights_are_valid")
+    b, straight, loops = acceptance(f, L, g.validator("castling"))
     where = loc(b)
     rights = ("get", "castle_rights", SELF, EC)
     kc = ("king", SELF, EC)
@@ -446,7 +448,7 @@ def check_validators(ctx, f, L):
         norm = got
         compare(ctx, "castling:per-colour", "castle_rights_are_valid's per-colour condition (king on back rank, own rook on the right's square, rook on the correct side of the king)", norm, spec, where)
     # ---------------- en passant
-    b, straight, loops = acceptance(f, L, B + "::en_passant_is_valid")
+    b, straight, loops = acceptance(f, L, g.validator("ep"))
     where = loc(b)
     ep = ("get", "en_passant", SELF)
     epf = ("field", ("downcast", ep, "Some"), "0")
@@ -475,15 +477,15 @@ def check_validators(ctx, f, L):
             g2.append(c2)
         compare(ctx, "ep:checkers", "en_passant_is_valid's checker constraint (the pawn itself, or a slider through the pawn's origin square)", g2, spec_l, where)
     # ---------------- derived / clocks
-    b, straight, loops = acceptance(f, L, B + "::checkers_and_pins_are_valid", noin)
+    b, straight, loops = acceptance(f, L, g.validator("derived"), noin)
     if calc:
         cp = ("call", calc[0], (("ptr", ("P", "self"), (), False), STM))
         spec = [[(norm_eq(("field", cp, "0"), CHECKERS), True), (norm_eq(("field", cp, "1"), PINNED), True), (R(LEN(CHECKERS), None, 2), True)]]
         st2 = [[(norm_eq(a[2], a[3]), pol) if (isinstance(a, tuple) and a and a[0] == "bin" and a[1] == "Eq" and len(a) == 4) else (a, pol) for a, pol in conj] for conj in straight]
         compare(ctx, "derived", "checkers_and_pins_are_valid (stored sets equal the definition for the side to move, at most two checkers)", st2, spec, loc(b))
-    b, straight, loops = acceptance(f, L, B + "::halfmove_clock_is_valid")
+    b, straight, loops = acceptance(f, L, g.validator("half"))
     compare(ctx, "half", "halfmove_clock_is_valid (<= 100)", straight, [[(R(("get", "halfmove_clock", SELF), None, 100), True)]], loc(b))
-    b, straight, loops = acceptance(f, L, B + "::fullmove_number_is_valid")
+    b, straight, loops = acceptance(f, L, g.validator("full"))
     compare(ctx, "full", "fullmove_number_is_valid (>= 1)", straight, [[(R(("get", "fullmove_number", SELF), None, 0), False)]], loc(b))
 
 
@@ -617,6 +619,6 @@ def run(ctx):
     ctx.rule("gate")
     g.check_gate(ctx, B + "::from_fen", "parser")
     g.check_gate(ctx, BUILDER + "::build", "builder")
-    check_validators(ctx, f, g.L)
+    check_validators(ctx, f, g.L, g)
     ctx.assumptions += ["C05 for the meaning of king_moves/between tables; C03 for the definition of checkers and pins",
                         "acceptance of every reachable position by the castling / en-passant / checker validators is not decided (see Not decided)"]
